@@ -1,7 +1,9 @@
 package props
 
 import (
+	"encoding/xml"
 	"fmt"
+	"io"
 	"strings"
 
 	"github.com/freeconf/yang/node"
@@ -163,6 +165,95 @@ func (p c19) Run(c *core.Ctx, idx int) {
 		for _, pr := range capt.Problems {
 			c.Violate("roundtrip/"+w.name+"/"+fam+"/protocol/"+strings.SplitN(strings.SplitN(pr, ": ", 2)[len(strings.SplitN(pr, ": ", 2))-1], " ", 3)[0], "importing the %s output: %s\nxml: %s\n%s", w.name, pr, head(out, 1500), wit())
 			break
+		}
+	}
+	// documents that start below the root: a container or a list entry (up to three per case)
+	var subs []dp.DPath
+	for _, ap := range t.AllPaths() {
+		if _, l, _ := t.Resolve(ap); l == nil && plainKeys(ap) {
+			subs = append(subs, ap)
+		}
+	}
+	r.Shuffle(len(subs), func(i, j int) { subs[i], subs[j] = subs[j], subs[i] })
+	if len(subs) > 3 {
+		subs = subs[:3]
+	}
+	for _, sp := range subs {
+		mn, _, _ := t.Resolve(sp)
+		kind := "container"
+		if sp[len(sp)-1].Key != nil {
+			kind = "entry"
+		}
+		for _, w := range writers {
+			if w.name == "WriteXMLDoc-pretty" {
+				continue
+			}
+			c.Eval()
+			c.Shape("%s/below-root/%s/depth%d", w.name, kind, len(sp))
+			var out string
+			var err error
+			var sel *node.Selection
+			if c.Guard(w.name+" below root", func() {
+				sel, err = dp.FindSel(b, sp)
+				if err == nil && sel != nil {
+					out, err = w.f(sel)
+				}
+			}) {
+				continue
+			}
+			sig := w.name + "/below-root/" + kind
+			swit := func() string { return fmt.Sprintf("start: %s\nxml: %s\n%s", dp.PathString(sp), head(out, 1200), wit()) }
+			if err != nil || sel == nil {
+				c.Violate("write-error/"+sig, "%s on %q failed: %v\n%s", w.name, dp.PathString(sp), err, wit())
+				continue
+			}
+			// one well-formed element
+			dec := xml.NewDecoder(strings.NewReader(out))
+			depth, roots := 0, 0
+			var xerr error
+			for {
+				tok, e := dec.Token()
+				if e != nil {
+					if e != io.EOF {
+						xerr = e
+					}
+					break
+				}
+				switch tok.(type) {
+				case xml.StartElement:
+					if depth == 0 {
+						roots++
+					}
+					depth++
+				case xml.EndElement:
+					depth--
+				}
+			}
+			if xerr != nil || roots != 1 {
+				c.Violate("document/"+sig+"/malformed", "%s on %q: not one well-formed element (roots=%d, error=%v)\n%s", w.name, dp.PathString(sp), roots, xerr, swit())
+				continue
+			}
+			var rd *nodeutil.XmlNode
+			if c.Guard("ReadXMLDoc below root", func() { rd, err = nodeutil.ReadXMLDoc(strings.NewReader(out)) }) {
+				continue
+			}
+			if err != nil {
+				c.Violate("roundtrip/"+sig+"/read-error", "ReadXMLDoc failed: %v\n%s", err, swit())
+				continue
+			}
+			capt := dp.NewCapture(s)
+			if c.Guard("import below root", func() { err = sel.Split(rd).UpsertInto(captNodeFor(capt, mn.S, false)) }) {
+				continue
+			}
+			if err != nil {
+				c.Violate("roundtrip/"+sig+"/"+errClassText(err), "importing the sub-tree document failed: %v\n%s", err, swit())
+				continue
+			}
+			got := capt.Root
+			got.S = mn.S
+			if d := dp.Diff(s, mn, got, cmp); d != "" {
+				c.Violate("roundtrip/"+sig+"/"+diffClass(d)+typeClass(s, d), "%s on %q then ReadXMLDoc yields a different sub-tree:\n%s\n%s", w.name, dp.PathString(sp), d, swit())
+			}
 		}
 	}
 	// interleavings of a reference document
